@@ -139,6 +139,13 @@ func discharge(obls []*Obligation, dir string, timeoutS int, workers int, confir
 				tmo = 4 // reachability covers are a vacuity guard, not a proof obligation
 			}
 			res := runSolvers(file, tmo, solvers)
+			if !o.Cover && (res.status == "unknown" || res.status == "timeout") {
+				// not decided inside the quick budget (e.g. a loaded machine): one retry with a long budget
+				// before anything is reported, so that slowness never turns into an alarm
+				r2 := runSolvers(file, 8*timeoutS, solvers)
+				r2.seconds += res.seconds
+				res = r2
+			}
 			o.Status, o.Solver, o.Seconds = res.status, res.solver, res.seconds
 			if res.status == "sat" {
 				o.Model = res.output
